@@ -142,7 +142,7 @@ type handle struct {
 
 func TestSequential(t *testing.T) {
 	kit.Steps(40)
-	kit.Check(t, 300, 32000, func(t *rapid.T) {
+	kit.Check(t, 800, 32000, func(t *rapid.T) {
 		verifhook.InstallClock(time.Unix(1_700_000_000, 0))
 		defer verifhook.RemoveClock()
 		c := drawCfg(t)
@@ -346,7 +346,7 @@ func planString(plan []kit.PlanEntry) string {
 
 func TestConcurrentDelayPlans(t *testing.T) {
 	filter := kit.SiteFilter("appencryption/session_cache.go", "appencryption/session.go", "pkg/cache/cache.go", "appencryption/key_cache.go")
-	kit.Check(t, 250, 32000, func(t *rapid.T) {
+	kit.Check(t, 500, 32000, func(t *rapid.T) {
 		c := drawCfg(t)
 		workers := rapid.IntRange(2, 6).Draw(t, "workers")
 		ops := rapid.IntRange(8, 30).Draw(t, "ops")
